@@ -145,28 +145,101 @@ func (f *Frame) leafKey(a *Addr, l leaf) (string, *Sort) {
 	}
 }
 
+// leafLoc: one SMT-level location of a (possibly compound) value at an address.
+type leafLoc struct {
+	key  string
+	sort *Sort
+	a    *Addr
+}
+
+// Embedded (by-value) struct fields of heap objects are modelled as inner
+// objects with their own (negative) reference sub(obj, k), so that &x.inner is
+// an ordinary pointer and the inner struct's fields are always the fields of
+// its own type.  |sub(o,k)| = |o|*subN + k is injective.
+const subN = 4096
+
+var subKeys = map[string]int{}
+
+func subRef(obj *Term, outer types.Type, field string) *Term {
+	k := typeKey(outer) + "$" + field
+	id, ok := subKeys[k]
+	if !ok {
+		id = len(subKeys) + 1
+		if id >= subN {
+			panic("too many embedded struct fields")
+		}
+		subKeys[k] = id
+	}
+	if v, ok := obj.IntVal(); ok {
+		if v >= 0 {
+			return IntLit(-(v*subN + int64(id)))
+		}
+		return IntLit(v*subN - int64(id))
+	}
+	return Ite(Ge(obj, IntLit(0)), Neg(Add(Mul(obj, IntLit(subN)), IntLit(int64(id)))), Sub(Mul(obj, IntLit(subN)), IntLit(int64(id))))
+}
+
+func innerStruct(t types.Type) bool {
+	_, ok := t.Underlying().(*types.Struct)
+	return ok && !isOpaqueStruct(t)
+}
+
+// fieldOf: address of a field of the struct at address a.
+func (f *Frame) fieldOf(a *Addr, st types.Type, name string, ft types.Type) *Addr {
+	if a.Kind == AObj && a.Path == "" && strings.HasPrefix(a.Key, "F$") {
+		if innerStruct(ft) {
+			return &Addr{Kind: AObj, Obj: subRef(a.Obj, st, name), Key: "F$" + typeKey(ft), T: ft}
+		}
+		return &Addr{Kind: AObj, Obj: a.Obj, Key: "F$" + typeKey(st), Path: "$" + name, T: ft}
+	}
+	na := *a
+	na.Path = a.Path + "$" + name
+	na.T = ft
+	return &na
+}
+
+func (f *Frame) leafLocs(a *Addr) []leafLoc {
+	if a.Kind == AObj && a.Path == "" && strings.HasPrefix(a.Key, "F$") && innerStruct(a.T) {
+		st := a.T.Underlying().(*types.Struct)
+		var out []leafLoc
+		for i := 0; i < st.NumFields(); i++ {
+			fa := f.fieldOf(a, a.T, st.Field(i).Name(), st.Field(i).Type())
+			if _, isArr := fa.T.Underlying().(*types.Array); isArr {
+				panic("array value type not supported: " + fa.T.String())
+			}
+			out = append(out, f.leafLocs(fa)...)
+		}
+		return out
+	}
+	var out []leafLoc
+	for _, l := range leavesOf(a.T, f.E.Mode) {
+		key, sort := f.leafKey(a, l)
+		out = append(out, leafLoc{key, sort, a})
+	}
+	return out
+}
+
 func (f *Frame) load(a *Addr, st *State) *Val {
 	if _, isArr := a.T.Underlying().(*types.Array); isArr {
 		f.E.fail("load of whole array value not supported (%s)", a.T)
 	}
-	ls := leavesOf(a.T, f.E.Mode)
+	ls := f.leafLocs(a)
 	ts := make([]*Term, len(ls))
 	var bound *Term
 	sameBound := len(ls) > 0
 	for i, l := range ls {
-		key, sort := f.leafKey(a, l)
-		if b := st.boundOf(key); bound == nil {
+		if b := st.boundOf(l.key); bound == nil {
 			bound = b
 		} else if !termEq(bound, b) {
 			sameBound = false
 		}
-		cur := st.Get(key, sort)
+		cur := st.Get(l.key, l.sort)
 		f.E.noteVars(cur)
-		switch a.Kind {
+		switch l.a.Kind {
 		case AObj:
-			ts[i] = Select(cur, a.Obj)
+			ts[i] = Select(cur, l.a.Obj)
 		case AElem:
-			ts[i] = Select(Select(cur, a.Base), a.Idx)
+			ts[i] = Select(Select(cur, l.a.Base), l.a.Idx)
 		default:
 			ts[i] = cur
 		}
@@ -179,7 +252,7 @@ func (f *Frame) load(a *Addr, st *State) *Val {
 }
 
 func (f *Frame) store(a *Addr, v *Val, st *State) {
-	ls := leavesOf(a.T, f.E.Mode)
+	ls := f.leafLocs(a)
 	var vs []*Term
 	if v.K == VFunc {
 		vs = []*Term{f.funcTerm(v)}
@@ -190,19 +263,18 @@ func (f *Frame) store(a *Addr, v *Val, st *State) {
 		f.E.fail("store: leaf count mismatch for %s: %d vs %d (%s)", a.T, len(ls), len(vs), v)
 	}
 	for i, l := range ls {
-		key, sort := f.leafKey(a, l)
-		cur := st.Get(key, sort)
+		cur := st.Get(l.key, l.sort)
 		f.E.noteVars(cur)
 		var nt *Term
-		switch a.Kind {
+		switch l.a.Kind {
 		case AObj:
-			nt = Store(cur, a.Obj, vs[i])
+			nt = Store(cur, l.a.Obj, vs[i])
 		case AElem:
-			nt = Store(cur, a.Base, Store(Select(cur, a.Base), a.Idx, vs[i]))
+			nt = Store(cur, l.a.Base, Store(Select(cur, l.a.Base), l.a.Idx, vs[i]))
 		default:
 			nt = vs[i]
 		}
-		st.Set(key, sort, f.E.name(nt, f.prefix+"s$"+key))
+		st.Set(l.key, l.sort, f.E.name(nt, f.prefix+"s$"+l.key))
 	}
 }
 
@@ -266,7 +338,11 @@ const allocKey = "ALLOC"
 
 var allocSort = IntS
 
-func allocatedIn(next, r *Term) *Term { return And(Lt(IntLit(0), r), Lt(r, next)) }
+func allocatedIn(next, r *Term) *Term {
+	// positive refs: allocation order; negative refs: inner objects, allocated with their owner
+	owner := Div(Neg(r), IntLit(subN))
+	return Or(And(Lt(IntLit(0), r), Lt(r, next)), And(Lt(r, IntLit(0)), Lt(owner, next)))
+}
 
 func (f *Frame) isAlloc(r *Term) *Term {
 	a := f.st.Get(allocKey, allocSort)
@@ -820,14 +896,12 @@ func (f *Frame) fieldAddr(x *Val, xt types.Type, field int, pos token.Pos) *Val 
 	su := st.Underlying().(*types.Struct)
 	fld := su.Field(field)
 	base := f.addrOf(x, xt, pos)
-	na := *base
-	na.Path = base.Path + "$" + fld.Name()
-	na.T = fld.Type()
-	if base.Kind == AObj && base.Path == "" && !strings.HasPrefix(base.Key, "F$") {
-		// cell holding a struct: re-key as struct fields
-		na.Key = base.Key
+	na := f.fieldOf(base, st, fld.Name(), fld.Type())
+	if innerStruct(fld.Type()) && na.Kind == AObj && na.Path == "" {
+		// pointer to an embedded struct: an ordinary reference to the inner object
+		return &Val{K: VScalar, T: types.NewPointer(fld.Type()), X: na.Obj}
 	}
-	return &Val{K: VAddr, T: types.NewPointer(fld.Type()), Addr: &na}
+	return &Val{K: VAddr, T: types.NewPointer(fld.Type()), Addr: na}
 }
 
 func (f *Frame) bounds(kind string, pos token.Pos, cond *Term) {
